@@ -68,6 +68,18 @@ func runC07(c *an.Ctx) {
 					}
 				}
 			})
+			// … and only such a head does: a header the store already has never enters the pending
+			// ranges (it would never be cleaned out of them and would freeze the subjective head)
+			for _, ac := range callsTo(setLocal, rangesAdd) {
+				if hc == nil || !sf.Dominates(hc.Block(), ac.Block()) {
+					c.Fail("C07.a", "target-only-above-store", "a header is added to the pending ranges only when the store head is unreadable or below it", setLocal, ac, "no read of the store head dominates the addition", nil)
+					continue
+				}
+				sh, herr := "Height("+st.Of(hc)+"#0)", st.Of(hc)+"#1"
+				pr := sf.Prune(an.EQ(herr, "nil"), an.GE(sh, "Height(p2)"))
+				c.Check(!pr.Reachable(ac.Block()), "C07.a", "target-only-above-store", "a header is added to the pending ranges only when the store head is unreadable or below it", setLocal, ac,
+					"with the store head read without error and not below the new head the addition is "+map[bool]string{true: "reachable", false: "unreachable"}[pr.Reachable(ac.Block())], nil)
+			}
 			if c.Check(hc != nil, "C07.a", "reads-store-head", "setLocalHead compares the new head with the store head", setLocal, nil, "", nil) {
 				sh, herr := "Height("+st.Of(hc)+"#0)", st.Of(hc)+"#1"
 				isAdd := an.IsCallTo(rangesAdd)
